@@ -635,11 +635,20 @@ def run(ctx):
                        {"case": c, "observed": o, "failing_input": True})
             if len(ctx.violations) >= 8:
                 break
-    # thorough: the concurrent cases again under the race detector (an aid to the search, not the verdict)
-    if ctx.tier == "thorough":
+    # the concurrent cases again under the race detector (all of them in the thorough tier, a few per balancer in the
+    # quick tier): an unsynchronised balancer shows as a wrong pick only once in millions of calls, as a reported data
+    # race at once
+    if True:
         try:
             hv.build_harness("c18", race=True)
             cc = [{k: v for k, v in c.items() if k != "kind"} for c in cases if c.get("mode") == "conc"]
+            if ctx.tier != "thorough":
+                per, few = {}, []
+                for c in cc:
+                    if per.get(c["lb"], 0) < 3:
+                        per[c["lb"]] = per.get(c["lb"], 0) + 1
+                        few.append(c)
+                cc = few
             rc2, obs2, err2 = hv.run_harness("c18", cc, race=True)
             ctx.note("race_detector", {"cases": len(cc), "exit": rc2, "reports": err2.count("WARNING: DATA RACE")})
             for c, o in zip(cc, obs2):
